@@ -44,3 +44,18 @@ Proof.
            | ex_intro _ w (conj Hp _) => ex_intro _ d (ex_intro _ w (conj Hp eq_refl))
            end).
 Qed.
+
+From OV Require Import Rt.TokRound2 Rt.TokRound2Ex Rt.LexLink2Text Rt.LexLink2.
+(* the same for the wider core2 fragment (comments, scalar lists in both layouts, sections, META): re-readable and a
+   fixpoint of canonicalisation, text level, every depth *)
+Theorem C01_text_fixpoint_core2 :
+  forall cls numcanon holo_ok strict sp d,
+    core2_doc d = true -> lex_safe2_doc d = true ->
+    nums_ok2_l numcanon ex_idnum (dsections d) -> Forall (field_num_ok numcanon) (dmeta d) ->
+    exists d' warns, parse_model cls numcanon holo_ok strict (lines_of (emit sp d)) = PRDoc d' [] warns /\ emit sp d' = emit sp d.
+Proof.
+  exact (fun cls n h s sp d Hc Hl Hn Hm =>
+           match text_roundtrip_core2 cls n h s sp d Hc Hl Hn Hm with
+           | ex_intro _ w (conj Hp _) => ex_intro _ d (ex_intro _ w (conj Hp eq_refl))
+           end).
+Qed.
